@@ -30,6 +30,11 @@ const (
 	ntMixed = "ACGTNacgtn-"
 	aaUpper = "ARNDLKX-"
 	aaMixed = "ARNDLKXarndlkx-"
+	// complete letter sets: every one of the 26 letters (B, Z, J, U, O too) resp. every IUPAC code, in
+	// both cases for the statistics that fold case
+	aaFullUpper = "ABCDEFGHIJKLMNOPQRSTUVWXYZ-"
+	aaFullMixed = "ABCDEFGHIJKLMNOPQRSTUVWXYZabcdefghijklmnopqrstuvwxyz-"
+	ntFullMixed = "ACGTRYSWKMBDHVNacgtryswkmbdhvn-"
 )
 
 func wildOf(alpha string) byte {
@@ -150,14 +155,21 @@ func genColumn(t *rapid.T, chars string, alpha string, n int, mixed bool) string
 func genAli(t *rapid.T, allowMixed bool, minRows int) (a gen.Ali, mixed bool) {
 	alpha := rapid.SampledFrom([]string{"nt", "aa"}).Draw(t, "alphabet")
 	mixed = allowMixed && rapid.Bool().Draw(t, "mixed")
+	full := rapid.IntRange(0, 2).Draw(t, "fullset") == 0
 	chars := ntUpper
 	switch {
+	case alpha == "nt" && mixed && full:
+		chars = ntFullMixed
 	case alpha == "nt" && mixed:
 		chars = ntMixed
-	case alpha == "nt" && rapid.IntRange(0, 3).Draw(t, "iupac") == 0:
+	case alpha == "nt" && (full || rapid.IntRange(0, 3).Draw(t, "iupac") == 0):
 		chars = ntIUPAC
+	case alpha == "aa" && mixed && full:
+		chars = aaFullMixed
 	case alpha == "aa" && mixed:
 		chars = aaMixed
+	case alpha == "aa" && full:
+		chars = aaFullUpper
 	case alpha == "aa":
 		chars = aaUpper
 	}
@@ -208,7 +220,8 @@ func eqF(a, b, tol float64) bool {
 // ---- 1. character counts ------------------------------------------------------------------------
 
 type countCase struct {
-	Ali gen.Ali `json:"ali"`
+	Ali gen.Ali  `json:"ali"`
+	F   *formula `json:"formula,omitempty"` // a tall or long alignment given by formula instead of Ali
 }
 
 func naiveCounts(cells []byte) map[uint8]int {
@@ -220,7 +233,8 @@ func naiveCounts(cells []byte) map[uint8]int {
 }
 
 func checkCounts(c countCase) (o pbt.Outcome, err error) {
-	a := c.Ali
+	a := resolve(c.Ali, c.F)
+	sizeClass(&o, c.F)
 	al := gen.MustBuild(a)
 	n, l := len(a.Rows), a.Length()
 	mixed := isMixed(a)
@@ -340,15 +354,19 @@ func checkCounts(c countCase) (o pbt.Outcome, err error) {
 
 func TestCounts(t *testing.T) {
 	pbt.Run(t, func(t *rapid.T) countCase {
+		if f := genMaybeLarge(t, true); f != nil {
+			return countCase{Ali: gen.Ali{Alphabet: f.Alphabet}, F: f}
+		}
 		a, _ := genAli(t, true, 1)
-		return countCase{a}
+		return countCase{Ali: a}
 	}, checkCounts)
 }
 
 // ---- 2. majority / consensus -----------------------------------------------------------------------
 
 type majCase struct {
-	Ali gen.Ali `json:"ali"`
+	Ali gen.Ali  `json:"ali"`
+	F   *formula `json:"formula,omitempty"`
 }
 
 // majoritySite: the reference decision for one column
@@ -417,10 +435,15 @@ func inInts(l []int, v int) bool {
 }
 
 func checkMajority(c majCase) (o pbt.Outcome, err error) {
-	a := c.Ali
+	a := resolve(c.Ali, c.F)
+	sizeClass(&o, c.F)
 	al := gen.MustBuild(a)
 	l := a.Length()
 	anyTie, anyFallback := false, false
+	reps := 30 // further calls that must return the same; fewer on the tall and long alignments
+	if c.F != nil {
+		reps = 6
+	}
 	for m := 0; m < 4; m++ {
 		ig, in := m&1 != 0, m&2 != 0
 		out, occur, total := al.MaxCharStats(ig, in)
@@ -453,7 +476,7 @@ func checkMajority(c majCase) (o pbt.Outcome, err error) {
 			}
 		}
 		// the same answer on 30 calls
-		for rep := 0; rep < 30; rep++ {
+		for rep := 0; rep < reps; rep++ {
 			o2, c2, t2 := al.MaxCharStats(ig, in)
 			if string(o2) != string(out) || !reflect.DeepEqual(c2, occur) || !reflect.DeepEqual(t2, total) {
 				return o, fmt.Errorf("MaxCharStats(ignoreGaps=%v, ignoreNs=%v) call %d returns %q %v %v, the first call returned %q %v %v", ig, in, rep+2, o2, c2, t2, out, occur, total)
@@ -474,7 +497,7 @@ func checkMajority(c majCase) (o pbt.Outcome, err error) {
 		if cons.Alphabet() != al.Alphabet() {
 			return o, fmt.Errorf("Consensus alphabet %d differs from the alignment's %d", cons.Alphabet(), al.Alphabet())
 		}
-		for rep := 0; rep < 30; rep++ {
+		for rep := 0; rep < reps; rep++ {
 			c2 := al.Consensus(ig, in)
 			s2, _ := c2.GetSequenceById(0)
 			if s2 != cs {
@@ -509,18 +532,22 @@ func keys(m map[uint8]bool) string {
 
 func TestMajority(t *testing.T) {
 	pbt.Run(t, func(t *rapid.T) majCase {
+		if f := genMaybeLarge(t, true); f != nil {
+			return majCase{Ali: gen.Ali{Alphabet: f.Alphabet}, F: f}
+		}
 		a, _ := genAli(t, true, 1)
-		return majCase{a}
+		return majCase{Ali: a}
 	}, checkMajority)
 }
 
 // ---- 3. site measures (upper-case input) --------------------------------------------------------------
 
 type siteCase struct {
-	Ali    gen.Ali `json:"ali"`
-	Pseudo float64 `json:"pseudocount"`
-	Log    bool    `json:"log"`
-	Norm   int     `json:"normalization"` // 0 none, 1 frequency, others: error expected
+	Ali    gen.Ali  `json:"ali"`
+	F      *formula `json:"formula,omitempty"`
+	Pseudo float64  `json:"pseudocount"`
+	Log    bool     `json:"log"`
+	Norm   int      `json:"normalization"` // 0 none, 1 frequency, others: error expected
 }
 
 func naiveEntropy(cells []byte, removeGaps bool) float64 {
@@ -558,7 +585,8 @@ func alphabetChars(alpha string) string {
 }
 
 func checkSiteMeasures(c siteCase) (o pbt.Outcome, err error) {
-	a := c.Ali
+	a := resolve(c.Ali, c.F)
+	sizeClass(&o, c.F)
 	al := gen.MustBuild(a)
 	n, l := len(a.Rows), a.Length()
 	w := wildOf(a.Alphabet)
@@ -764,8 +792,13 @@ func checkSiteMeasures(c siteCase) (o pbt.Outcome, err error) {
 
 func TestSiteMeasures(t *testing.T) {
 	pbt.Run(t, func(t *rapid.T) siteCase {
-		a, _ := genAli(t, false, 1)
-		c := siteCase{Ali: a}
+		var c siteCase
+		if f := genMaybeLarge(t, false); f != nil {
+			c = siteCase{Ali: gen.Ali{Alphabet: f.Alphabet}, F: f}
+		} else {
+			a, _ := genAli(t, false, 1)
+			c = siteCase{Ali: a}
+		}
 		c.Pseudo = rapid.SampledFrom([]float64{0, 0, 0.5, 1, 2.25}).Draw(t, "pseudo")
 		c.Log = rapid.Bool().Draw(t, "log")
 		c.Norm = rapid.SampledFrom([]int{1, 1, 0, 1, 7, -1}).Draw(t, "norm")
